@@ -2,6 +2,7 @@
   C11 — Component states follow the documented machine (choke-point part).
 -/
 import Nice.Model.CompState
+import Nice.Props.C11GatheringDone
 namespace Nice.Props.C11
 open Nice.CompState Nice.Gen
 
